@@ -351,25 +351,77 @@ def r19e(ctx, run):
     ind = [n for n in walk(f.body) if n.get("k") == "if" and n.get("e") is not None and any(x is d for d in decs for x in walk(n["e"])) and "indirect_by_val" in canon(n["e"])]
     run.check(len(decs) == 1 and len(ind) >= 1, f.site(), "a value returned in memory takes one INTEGER register for the hidden pointer", "fn_ty_to_abi", "sret", f.file, f.ln,
               "a return value classified MEMORY must consume exactly one INTEGER register (the hidden result pointer) and be returned indirectly")
-    # all-or-nothing: registers are taken only when both checked_sub succeed; otherwise aggregates go by value in memory
-    ms = [m for m in walk(f.body) if m.get("k") == "match" and "checked_sub(needed_int)" in canon(m["e"]) and "checked_sub(needed_sse)" in canon(m["e"])]
-    good = False
-    if len(ms) == 1:
-        arms = ms[0]["arms"]
-        first = canon(arms[0]["p"]).replace(" ", "")
-        good = first.startswith("(Some(") and "Some(" in first.split(",", 1)[1] and "int_regs = " in canon(arms[0]["b"]) and "sse_regs = " in canon(arms[0]["b"]) \
-            and "indirect_by_val" in canon(arms[-1]["b"])
-    run.check(good, f.site(ms[0]["ln"] if ms else None), "registers are taken only if ALL eightbytes of the argument fit; otherwise the aggregate is passed in memory", "fn_ty_to_abi",
-              "all-or-nothing", f.file, ms[0]["ln"] if ms else f.ln,
-              "an argument must be passed in registers only when every eightbyte gets one (both checked_sub succeed) and otherwise entirely in memory")
-    # needed counts: one per INTEGER / SSE eightbyte
-    cnt = [m for m in walk(f.body) if m.get("k") == "match" and canon(m["e"]) == "c"]
-    good = False
-    if cnt:
-        tbl = {synq.last_seg(h): canon(b) for h, p, g, b, arm in synq.match_table(cnt[0]) if h}
-        good = tbl.get("Int", "").replace(" ", "") in ("(needed_int+=1)", "needed_int+=1") and tbl.get("Sse", "").replace(" ", "") in ("(needed_sse+=1)", "needed_sse+=1")
-    run.check(good, f.site(cnt[0]["ln"] if cnt else None), "one INTEGER register per INTEGER eightbyte, one SSE register per SSE eightbyte", "fn_ty_to_abi", "needed", f.file,
-              cnt[0]["ln"] if cnt else f.ln, "the registers an argument needs must be counted one per INTEGER eightbyte and one per SSE eightbyte")
+    # the argument loop as a state machine: fn_ty_to_abi is evaluated on symbolic argument lists whose classification is given, and the
+    # pass mode of every argument is compared with the System V allocation (an aggregate takes registers only if ALL its eightbytes
+    # fit the registers left, and if it does not fit it takes NONE - the registers stay available for later arguments)
+    INT1, INT2, SSE1, SSE2, MIX, MEM = ["Int"], ["Int", "Int"], ["Sse"], ["Sse", "Sse"], ["Int", "Sse"], None
+
+    def scenario(desc, key, ret_cls, args):
+        """args: list of (name, classes or None, aggregate?)"""
+        tys = {}
+
+        def mk(name, classes, aggr):
+            v = Variant("TySym", {"n": name})
+            tys[repr(v)] = (classes, aggr)
+            return v
+        ret = mk("ret", ret_cls, True) if ret_cls != "void" else mk("ret", [], False)
+        params = [Obj("ParamTy", ty=mk("a%d:%s" % (i, n), c, ag)) for i, (n, c, ag) in enumerate(args)]
+
+        def classify(i, a):
+            c = tys[repr(a[0])][0]
+            if c is None:
+                return None
+            return [cls(x) for x in c] + [cls("NoClass")] * (8 - len(c))
+        it = SymInterp(
+            funcs={"classify_arg": classify, "FnAbi::new": lambda i, a: Obj("FnAbi", args=[], ret=None),
+                   "PassMode::cast": lambda i, a: Term("regs"), "PassMode::direct": lambda i, a: Term("direct"),
+                   "PassMode::indirect_by_val": lambda i, a: Term("memory"), "split_aggregate": lambda i, a: Term("split")},
+            methods={"is_zero_sized": lambda i, r, a: ret_cls == "void" if repr(r) == repr(ret) else False,
+                     "is_aggregate": lambda i, r, a: tys[repr(r)][1], "get_final_ty": lambda i, r, a: r, "into_real_type": lambda i, r, a: r,
+                     "stride": lambda i, r, a: 8, "size": lambda i, r, a: 8, "next_multiple_of": lambda i, r, a: r})
+        it.consts.update({"Class::Int": cls("Int"), "Class::Sse": cls("Sse")})
+        orig = it.eval
+
+        def ev(e, env):
+            if e["k"] == "cast":
+                v = orig(e["e"], env)
+                if isinstance(v, int):
+                    return v
+            return orig(e, env)
+        it.eval = ev
+        try:
+            sig = it.run_fn(f, {f.param_names()[0] if f.param_names()[0] else "args": None, "args": params, "ret": ret})
+        except (Panic, CannotEstablish) as c:
+            run.finding("fn_ty_to_abi", "alloc:" + key, f.file, f.ln, "cannot establish the argument passing of %s: %s" % (desc, getattr(c, "what", c)))
+            return
+        got = [m.op if isinstance(m, Term) else repr(m) for m, _ in sig.fields["args"]]
+        # reference allocation
+        ints, sses = 6, 8
+        if ret_cls is None:
+            ints -= 1
+        want = []
+        for n, c, ag in args:
+            if c is None:
+                want.append("memory")
+                continue
+            ni, ns = c.count("Int"), c.count("Sse")
+            if ni <= ints and ns <= sses:
+                ints, sses = ints - ni, sses - ns
+                want.append("regs" if ag else "direct")
+            else:
+                want.append("memory" if ag else "direct")
+        run.check(got == want, f.site(), "%s -> %s" % (desc, got), "fn_ty_to_abi", "alloc:" + key, f.file, f.ln,
+                  "%s is passed as %s; System V passes it as %s (an aggregate is passed in registers only when ALL its eightbytes fit the registers "
+                  "left; one that does not fit goes to memory whole and takes no register, so later arguments can still use them)" % (desc, got, want))
+    I = ("i64", INT1, False)
+    D = ("f64", SSE1, False)
+    scenario("(i64 x5, struct{i64,i64}, struct{i64})", "straddle-int", "void", [I] * 5 + [("Pair", INT2, True), ("One", INT1, True)])
+    scenario("(Pair, Pair, i64, Pair, One)", "straddle-int-2", "void", [("Pair", INT2, True), ("Pair", INT2, True), I, ("Pair", INT2, True), ("One", INT1, True)])
+    scenario("(f64 x7, struct{f64,f64}, struct{f64})", "straddle-sse", "void", [D] * 7 + [("DPair", SSE2, True), ("DOne", SSE1, True)])
+    scenario("(i64 x6, struct{i64,f64}, struct{f64})", "mixed-needs-both", "void", [I] * 6 + [("Mix", MIX, True), ("DOne", SSE1, True)])
+    scenario("big result in memory, (i64 x5, struct{i64})", "sret-takes-rdi", None, [I] * 5 + [("One", INT1, True)])
+    scenario("result in registers, (i64 x5, struct{i64})", "ret-regs", INT1, [I] * 5 + [("One", INT1, True)])
+    scenario("(struct of 24 bytes, struct{i64})", "memory-class", "void", [("Big", MEM, True), ("One", INT1, True)])
 
 
 def rules(ctx):
@@ -378,5 +430,5 @@ def rules(ctx):
         Rule("R19.b", "per-kind classification: register kinds INTEGER (two eightbytes when wider than 8), floats SSE, aggregates recurse at member offsets, tags INTEGER; nothing sized is NO_CLASS", 30, r19b),
         Rule("R19.c", "more than two eightbytes -> memory (unless one SSE vector); more than eight always", 8, r19c),
         Rule("R19.d", "register component types: INTEGER -> min(size,8) rounded to a power of two; SSE -> f32/f64 by size", 11, r19d),
-        Rule("R19.e", "register file: 6 INTEGER / 8 SSE, hidden result pointer takes one INTEGER, all-or-nothing per argument", 5, r19e),
+        Rule("R19.e", "register file: 6 INTEGER / 8 SSE; fn_ty_to_abi as a state machine on symbolic argument lists = System V allocation (all-or-nothing, hidden result pointer)", 10, r19e),
     ]
